@@ -1,4 +1,5 @@
 mod conc;
+mod convert;
 mod drive;
 mod gate;
 mod pool;
@@ -56,6 +57,14 @@ fn main() {
             args.iter().any(|a| a == "--isolate"),
         ),
         "conc-one" => conc::run_one_child(),
+        "codec" => convert::codec(&arg(&args, "--out").unwrap_or_else(|| "out/codec".into())),
+        "conv" => convert::conv(
+            &arg(&args, "--out").unwrap_or_else(|| "out/conv".into()),
+            arg(&args, "--files").and_then(|v| v.parse().ok()).unwrap_or(8),
+            arg(&args, "--tier").map(|t| t == "thorough").unwrap_or(false),
+            arg(&args, "--seed").and_then(|v| v.parse().ok()).unwrap_or(1),
+        ),
+        "sweep" => convert::sweep(&arg(&args, "--out").unwrap_or_else(|| "out/sweep".into()), &arg(&args, "--what").unwrap_or_else(|| "u32".into())),
         "conc-probe" => conc::probe(),
         "rerun" => drive::rerun(&arg(&args, "--in").expect("--in"), &arg(&args, "--out").expect("--out")),
         _ => {
